@@ -63,6 +63,25 @@ Theorem C02_total_command : forall (chunks : list (list N)) (fuel : nat),
            (fst (t_munch command_dfa cmd_payload (concat chunks))).
 Proof. exact (tty_total command_dfa command_matcher_ids prod_tabs cmd_VL cmd_VT cmd_VC command_certs). Qed.
 
+(* run level: the decoder in which a panicking payload decoder aborts the run at the byte where
+   the code calls it (Decoder/Events.v `_c` loops: every accepting state reached calls its decoder,
+   also for candidates that a longer match replaces) never panics and is exhausted at the end *)
+Theorem C02_run_no_panic_event : forall (chunks : list (list N)) (fuel : nat),
+  (length (concat chunks) + 3 <= fuel)%nat ->
+  exists s',
+    tty_feed_c event_dfa ev_payload fuel (t_init event_dfa) chunks
+      = Ok (fst (t_munch event_dfa ev_payload (concat chunks)), s') /\
+    tty_decode_c event_dfa ev_payload s' [] = Ok (s', None, []).
+Proof. exact (tty_total_checked event_dfa event_matcher_ids prod_tabs ev_VL ev_VT ev_VC event_certs). Qed.
+
+Theorem C02_run_no_panic_command : forall (chunks : list (list N)) (fuel : nat),
+  (length (concat chunks) + 3 <= fuel)%nat ->
+  exists s',
+    tty_feed_c command_dfa cmd_payload fuel (t_init command_dfa) chunks
+      = Ok (fst (t_munch command_dfa cmd_payload (concat chunks)), s') /\
+    tty_decode_c command_dfa cmd_payload s' [] = Ok (s', None, []).
+Proof. exact (tty_total_checked command_dfa command_matcher_ids prod_tabs cmd_VL cmd_VT cmd_VC command_certs). Qed.
+
 (* every call of a payload decoder — including those whose result is replaced by a longer
    match — is made on a string the automaton accepts (C02_calls_accepted), and on such strings
    no payload decoder panics: no slice or index out of range, no arithmetic overflow, no
@@ -86,6 +105,13 @@ Theorem C02_calls_accepted : forall (s : st N pitem) b q' w,
   run N (d_start event_dfa) (d_delta event_dfa) w = Some q' /\ d_accepting event_dfa q' = true.
 Proof. exact (call_accepted event_dfa event_matcher_ids prod_tabs). Qed.
 
+Theorem C02_calls_accepted_command : forall (s : st N pitem) b q' w,
+  Inv N pitem (d_start command_dfa) (d_delta command_dfa) (d_accepting command_dfa) (d_terminal command_dfa)
+      (item_of cmd_payload command_dfa) s ->
+  call_of command_dfa s b = Some (q', w) ->
+  run N (d_start command_dfa) (d_delta command_dfa) w = Some q' /\ d_accepting command_dfa q' = true.
+Proof. exact (call_accepted command_dfa command_matcher_ids prod_tabs). Qed.
+
 (* Utf8Decoder: never overruns its 4-byte buffer, terminates, yields only scalar values *)
 Theorem C02_utf8_decoder : forall chunks : list (list N),
   exists xs s', u8_feed utf8_dfa (u8_init utf8_dfa) chunks = Ok (xs, s') /\
@@ -93,6 +119,17 @@ Theorem C02_utf8_decoder : forall chunks : list (list N),
 Proof.
   intros chunks. apply (u8_feed_total utf8_dfa u8_V utf8_cert). apply (u8_init_inv utf8_dfa u8_V utf8_cert).
 Qed.
+
+(* ... its output does not depend on how the bytes are cut into reads, and a decode on an empty
+   reader returns Ok(None) in every state *)
+Theorem C02_utf8_decoder_chunking : forall chunks : list (list N),
+  u8_feed utf8_dfa (u8_init utf8_dfa) chunks = u8_feed utf8_dfa (u8_init utf8_dfa) [concat chunks].
+Proof.
+  intros chunks. apply (u8_feed_chunking utf8_dfa u8_V utf8_cert). apply (u8_init_inv utf8_dfa u8_V utf8_cert).
+Qed.
+
+Theorem C02_utf8_decoder_exhausted : forall s : u8st, u8_decode utf8_dfa s [] = Ok (s, None, []).
+Proof. reflexivity. Qed.
 
 (* characters are Unicode scalar values *)
 Theorem C02_chars_scalar :
@@ -128,6 +165,13 @@ Theorem C02_spans_in_order : forall s : list N,
 Proof.
   exact (munch_concat N pitem (d_start event_dfa) (d_delta event_dfa) (d_accepting event_dfa)
            (d_terminal event_dfa) (item_of ev_payload event_dfa)).
+Qed.
+
+Theorem C02_spans_in_order_command : forall s : list N,
+  concat (map span (fst (t_munch command_dfa cmd_payload s))) ++ snd (t_munch command_dfa cmd_payload s) = s.
+Proof.
+  exact (munch_concat N pitem (d_start command_dfa) (d_delta command_dfa) (d_accepting command_dfa)
+           (d_terminal command_dfa) (item_of cmd_payload command_dfa)).
 Qed.
 
 (* every accepting state of both automata is tagged (decoder.rs:257-261 `expect`), and the payload
